@@ -169,3 +169,34 @@ def column_guard(ctx, tk, rule):
         check_guard(ctx, rule, f, fast, Formulas([e]), lambda A: A["empty_rows_removed"], ["empty_rows_removed"],
                     "the difference-scatter fast path (which needs distinct row starts) is entered only when the geometry is known to have no empty rows",
                     fa=fa, describe="with empty rows two rows share a start and the plain scatter loses a value")
+
+
+def flat_result(ctx, tk, rule):
+    """RaggedShape.broadcast_values hands back the flat data buffer of the result: every return is 1-D.  A return of
+    the (possibly (1, 1)-shaped) column vector itself keeps its rank; the function compares `values.shape` with a
+    2-tuple, so a 2-D operand does reach it."""
+    f = ctx.func("raggedshape.RaggedShape.broadcast_values")
+    fa = ctx.fa(f)
+    vp = f.params[1]
+    two_d = any(isinstance(x, ast.Compare) and any(isinstance(y, ast.Attribute) and y.attr == "shape" for y in ast.walk(x.left))
+                and any(isinstance(c, ast.Tuple) and len(c.elts) == 2 for c in x.comparators) for x in ast.walk(f.node))
+    what = "the broadcast column vector is returned as a flat (1-D) buffer on every path"
+    for r in fa.cfg.returns():
+        tm = fa.term(r.ast.value, r)
+        verdicts = []
+        for a in alts(tm):
+            if a.k == "call" and a.a[0].k == "attr" and a.a[0].a[1] in ("ravel", "flatten"):
+                verdicts.append(True)
+            elif a.k == "call" and a.a[0].k == "attr" and a.a[0].a[1] == "reshape" and a.a[1] and is_const(a.a[1][0], -1) and len(a.a[1]) == 1:
+                verdicts.append(True)
+            elif a.k == "call" and a.a[0].k == "attr" and a.a[0].a[1] in ("_broadcast_values_fast", "_raw_broadcast"):
+                verdicts.append(True)
+            else:
+                # the operand itself (through asanyarray / astype, which keep the rank)
+                core = a
+                while core.k == "call" and (np_call(core, {"asanyarray", "asarray", "array"}) or (core.a[0].k == "attr" and core.a[0].a[1] == "astype")):
+                    core = core.a[1][0] if np_call(core, {"asanyarray", "asarray", "array"}) else core.a[0].a[0]
+                verdicts.append(False if (core.k == "param" and core.a[0] == vp and two_d) else None)
+        ok = False if False in verdicts else (True if all(v is True for v in verdicts) else None)
+        ctx.decide(rule, f, what, ok, "`%s` returns the operand with its own rank: a (1, 1) column vector on a one-row array becomes a 2-D data buffer" % ast.unparse(r.ast),
+                   node=r.ast, key="rank:%d" % r.lineno if hasattr(r, "lineno") else None, engine="E5")
